@@ -7,6 +7,7 @@ R17.2  layering in _prepare_headers: fresh dict <- defaults <- per-request heade
 R17.3  pass-through: request() forwards every caller kwarg except `headers`, unchanged
 R17.4  CompositeAuth threads the result through self.plugins in order
 R17.5  ApiKeyAuth location switch is total and writes self.name -> self.key into the right container
+R17.7  where plugin-added params / cookies are merged into the caller's value, that value is converted with dict() only under a type test
 R17.6  bundled plugins extend (copy-then-update) the container they write and return request_args
 """
 from __future__ import annotations
@@ -14,7 +15,7 @@ from __future__ import annotations
 import ast
 from typing import Dict, List, Optional, Set, Tuple
 
-from sa.cfg import CFG
+from sa.cfg import CFG, guards
 from sa.model import AnalysisError, Class, Function, Repo, calls_in, const_str, dotted, norm, own_nodes, parent
 from sa.match import Locals, canon_compare, conjuncts, match
 from sa.report import Report
@@ -237,6 +238,40 @@ def run(repo: Repo, rep: Report, tier: str) -> None:
                           m0.loc(n0))
 
     layering_rule(repo, rep)
+
+    # ---------------------------------------------------------------- R17.7 caller-supplied params / cookies keep their shape
+    # httpx accepts `params` as a mapping *or* as a sequence of (name, value) pairs (repeated names!).  Where the transport merges what a
+    # plugin added into the caller's value, a dict() conversion of that value must be guarded by a test of its type.
+    tmod7 = repo.module(TRANSPORT)
+    prep7 = tmod7.classes["HttpxTransport"].methods.get("_prepare_headers")
+    if prep7 is None:
+        raise AnalysisError("anchor vanished: HttpxTransport._prepare_headers")
+    cfg7 = CFG(prep7.node)
+    dom7 = cfg7.dominators()
+    P7 = Locals(prep7.node)
+    kw_param = prep7.params[-1] if prep7.params else ""
+    # caller values: locals bound from <request kwargs param>.get(...) / [..]
+    caller_vals = {name for name, ds in P7.defs.items() for k, v, _ in ds if v is not None and any(
+        isinstance(x, ast.Name) and x.id in prep7.params and x.id != "self" for x in ast.walk(v)) and any(
+        isinstance(x, (ast.Subscript, ast.Call)) for x in ast.walk(v)) and not any(isinstance(x, ast.Name) and x.id.startswith("authenticated") for x in ast.walk(v))}
+    n7 = 0
+    for nd in cfg7.nodes:
+        if nd.kind != "stmt" or nd.ast is None or nd.copy:
+            continue
+        for c in calls_in(nd.ast):
+            if dotted(c.func) == "dict" and c.args and any(isinstance(x, ast.Name) and x.id in caller_vals for x in ast.walk(c.args[0])):
+                var = [x.id for x in ast.walk(c.args[0]) if isinstance(x, ast.Name) and x.id in caller_vals][0]
+                n7 += 1
+                typed = [g for g, pol in guards(cfg7, nd.id, dom7) if g.kind == "test" and pol is not None and any(
+                    isinstance(x, ast.Call) and dotted(x.func) == "isinstance" and x.args and isinstance(x.args[0], ast.Name) and x.args[0].id == var for x in ast.walk(g.ast))]
+                sub = f"{tmod7.relpath}:HttpxTransport._prepare_headers dict() of the caller's `{var}`"
+                if typed:
+                    rep.ok("R17.7", sub, f"converted only where `{norm(typed[0].ast)[:50]}` has settled its type (pair sequences keep their repeated names)", prep7.loc(c))
+                else:
+                    rep.violation("R17.7", sub, f"{prep7.fq}|caller-value-dict-unguarded",
+                                  f"`{norm(c)[:50]}` turns whatever the caller passed into a dict: a sequence of (name, value) pairs with a repeated name "
+                                  "(`[('tag','a'),('tag','b')]`) loses all but the last value as soon as a plugin adds a query parameter or cookie", prep7.loc(c))
+    rep.count("R17.7:dict_conversions_of_caller_values", n7)
 
     # ---------------------------------------------------------------- R17.3 pass-through
     sub3 = f"{tmod.relpath}:HttpxTransport.request"
